@@ -470,6 +470,81 @@ Proof.
   rewrite S in K. assert (Some (2, 0, 0) = Some (2, 2, 0)) as X by (apply K; vm_compute; reflexivity). discriminate X.
 Qed.
 
+(* ---- the same slice over EVERY HISTORY of a p2p topic (Sys/LoadMarksC09Hist.v): any notes with any sequence numbers,
+   publishes, unsubscriptions, re-subscriptions by EITHER party, by usrXXX or by p2pXXX name, idle unloads, restarts, any
+   failing or crashing store call, from any stored state [s] with one row per user, rows of the two parties only, no row
+   without a topic row, stored marks at most seqid ([ksinv]), seqid >= 0 and uid 0 not an account ([kbase]); the acting
+   sessions belong to the two parties ([kop_ok]). *)
+From Tinode Require Import Sys.LoadMarksC09Hist.
+From Coq Require Import Lia.
+
+(* The STORED marks never decrease: at every step of every history, neither stored mark of a party whose subscription
+   row is live before and after the step is lower afterwards - across every load branch of initTopicP2P included. *)
+Theorem c09_p2p_store_monotone : forall sm roots ua ub s h fo,
+  ua <> 0%N -> ub <> 0%N -> ksinv ua ub s -> kbase s ->
+  Forall (fun fo => kop_ok sm ua ub (snd fo)) h -> kop_ok sm ua ub (snd fo) ->
+  let x := fst (krun LP2P sm roots ua ub (mkKS s None 0) h) in
+  ksmono (y_st x) (y_st (fst (kstep_f LP2P sm roots ua ub x fo))).
+Proof.
+  intros sm roots ua ub s h fo NA NB SI KB OKh OKfo x.
+  assert (kinv ua ub (mkKS s None 0)) as K0 by (split; [exact SI|split; [exact KB|exact I]]).
+  pose proof (krun_inv sm roots ua ub NA NB h _ K0 OKh) as KI.
+  exact (proj2 (kstep_f_inv sm roots ua ub NA NB x fo KI OKfo)).
+Qed.
+
+(* The invariant behind it, in every reachable state: the store keeps its shape and, while the topic is loaded, the topic
+   row exists, 0 <= lastID <= seqid <= lastID + 1, an entry marked deleted (an unsubscribed party) has no live row, and
+   every live entry has a live row whose marks are NOT AHEAD of the cached ones, the cached marks being at most lastID. *)
+Theorem c09_p2p_store_not_ahead : forall sm roots ua ub s h,
+  ua <> 0%N -> ub <> 0%N -> ksinv ua ub s -> kbase s ->
+  Forall (fun fo => kop_ok sm ua ub (snd fo)) h ->
+  let x := fst (krun LP2P sm roots ua ub (mkKS s None 0) h) in
+  ksinv ua ub (y_st x) /\ kbase (y_st x) /\ match y_ca x with Some c => kcinv (y_st x) c | None => True end.
+Proof.
+  intros sm roots ua ub s h NA NB SI KB OKh x.
+  assert (kinv ua ub (mkKS s None 0)) as K0 by (split; [exact SI|split; [exact KB|exact I]]).
+  exact (krun_inv sm roots ua ub NA NB h _ K0 OKh).
+Qed.
+
+(* ACROSS A RELOAD, in every reachable state in which the topic is not loaded: whichever party attaches first, through
+   whichever branch of initTopicP2P, with whichever store call failing - if the topic gets loaded, then every party's
+   live cache entry carries exactly that party's own stored marks (so {get desc} reports them: c09_reload_reports_stored,
+   and a note not above them is dropped: c09_reload_stale_note_silent), the stored marks of rows that were live are
+   untouched by the load, and the reachable-state invariant holds again. *)
+Theorem c09_p2p_reload_restores_stored_marks : forall sm roots ua ub s h f u1 byname s' c n' ns,
+  ua <> 0%N -> ub <> 0%N -> ksinv ua ub s -> kbase s ->
+  Forall (fun fo => kop_ok sm ua ub (snd fo)) h ->
+  let x := fst (krun LP2P sm roots ua ub (mkKS s None 0) h) in
+  u1 = ua \/ u1 = ub ->
+  kinit_p2p f (y_st x) 0 u1 (if byname : bool then 0%N else kpeer ua ub u1) = KOk s' c n' ns ->
+  keq s' c /\ kcinv s' c /\ ksmono (y_st x) s' /\ ksinv ua ub s' /\
+  forall u p, alookup u (k_users c) = Some p -> kp_deleted p = false.
+Proof.
+  intros sm roots ua ub s h f u1 byname s' c n' ns NA NB SI KB OKh x PU LD.
+  destruct (c09_p2p_store_not_ahead sm roots ua ub s h NA NB SI KB OKh) as [SI1 [KB1 _]]. fold x in SI1, KB1.
+  assert ((if byname then 0%N else kpeer ua ub u1) = kpeer ua ub u1 \/ (if byname then 0%N else kpeer ua ub u1) = 0%N) as P2
+    by (destruct byname; auto).
+  destruct (kload_inv ua ub NA NB _ _ _ _ _ _ _ _ _ SI1 KB1 PU P2 LD) as [A [_ [C [D E]]]].
+  split; [exact E|]. split; [exact C|]. split; [exact D|]. split; [exact A|].
+  intros u p AL. eapply (kinit_topic_live KP2P); [exact LD|exact AL].
+Qed.
+
+(* the hypotheses are satisfiable: the seeded stored state and a history that unloads and reloads *)
+Example c09_p2p_hist_hyps :
+  ksinv 1 2 c09_load_example_store /\ kbase c09_load_example_store /\
+  Forall (fun fo => kop_ok [(1%N, 1%N); (2%N, 2%N)] 1 2 (snd fo))
+         [(NoFault, KSub 1 false); (NoFault, KSub 2 false); (NoFault, KNote 2 K_read 6); (NoFault, KLeave 1 true);
+          (NoFault, KLeave 2 false); (NoFault, KUnload); (NoFault, KSub 1 false); (NoFault, KGetDesc 2)].
+Proof.
+  split.
+  - split; [unfold und; cbn; repeat constructor; cbn; intuition discriminate|].
+    split; [intros r [<-|[<-|[]]]; cbn; auto|]. split; [discriminate|].
+    intros u rd rc dl H. unfold smk in H. destruct (find_sub u (subs c09_load_example_store)) as [r|] eqn:FS; [|discriminate H].
+    unfold find_sub in FS. apply find_some in FS. destruct FS as [[<-|[<-|[]]] _]; cbn in H; [discriminate H|].
+    inversion H. subst. cbn. lia.
+  - split; [split; [cbn; lia|reflexivity]|]. repeat (apply Forall_cons; [cbn; unfold party; auto|]). apply Forall_nil.
+Qed.
+
 Print Assumptions c09_load_marks_equal_stored.
 Print Assumptions c09_load_request_marks_equal_stored.
 Print Assumptions c09_boot_marks_equal_stored.
@@ -479,3 +554,7 @@ Print Assumptions c09_reload_stale_note_silent.
 Print Assumptions c09_p2p_stale_note_silent.
 Print Assumptions c09_load_example.
 Print Assumptions c09_cache_marks_equal_stored_always_refuted.
+Print Assumptions c09_p2p_store_monotone.
+Print Assumptions c09_p2p_store_not_ahead.
+Print Assumptions c09_p2p_reload_restores_stored_marks.
+Print Assumptions c09_p2p_hist_hyps.
